@@ -386,8 +386,9 @@ def expected(s, package):
         acc = [(late, val) for (k, late, ok, val, raw, n) in s.calls if k == kind and ok]
         if not acc or c not in sup:
             continue
-        if len(acc) > 1 and acc[-1][0]:
-            classes.add("late-grow")
+        att = [late for (k, late, ok, val, raw, n) in s.calls if k == kind]
+        if len(att) > 1 and att[-1] and not att[0]:
+            classes.add("late-grow")        # the block is set again after the audio (whether or not the library accepts the call)
         val = acc[-1][1]
         if kind == "bext":
             f = unpack_fields(BEXT_FIELDS, val)
